@@ -20,6 +20,13 @@ func VerifC16NatholeLocks() {
 		for range sidCh {
 		}
 	}()
+	// a session whose analysis records have been cleaned away meanwhile (hourly clean-up) may still report
+	if zzverif.Bool("sessionKnown") {
+		c.mu.Lock()
+		c.sessions["sid-1"] = &Session{sid: "sid-1", analysisKey: "cleaned-away", notifyCh: make(chan struct{}, 1)}
+		c.mu.Unlock()
+		zzverif.Reach("C16.locks.report-of-a-known-session")
+	}
 	tr := &c08Transporter{}
 	m := &msg.NatHoleVisitor{TransactionID: "t", ProxyName: []string{"x1", "nosuch"}[zzverif.Choice("name", 2)], PreCheck: zzverif.Bool("preCheck"),
 		Timestamp: 1, SignKey: c08StubAuthKeyNat("sk", 1)}
@@ -34,5 +41,9 @@ func VerifC16NatholeLocks() {
 		c.CloseClient("x1")
 	}
 	zzverif.Quiesce()
+	// the controller stays usable for everybody else: no handler returns with the table still locked
+	_, err = c.ListenClient("x2", "sk", nil)
+	zzverif.Assert(err == nil, "C16.locks.controller-usable-after-every-handler")
+	c.CloseClient("x2")
 	zzverif.Reach("C16.locks.done")
 }
